@@ -74,3 +74,34 @@ def pick_frames(frames, tier, seed, nquick=1):
         if f not in out:
             out.append(f)
     return out
+
+
+def represent(a, rep):
+    """The same logical array (same values in C reading order) in another representation.
+
+    C / F / T (transposed view) / view (strided, non-contiguous) / ro (read-only) / i8, i4 (integer dtype; values must be integral)
+    / series (pandas, non-default index; 1-D only) / list."""
+    a = np.asarray(a)
+    if rep in (None, "C"):
+        return np.ascontiguousarray(a)
+    if rep == "F":
+        return np.asfortranarray(a)
+    if rep == "T":
+        return np.ascontiguousarray(a.T).T
+    if rep == "view":
+        big = np.repeat(a.ravel(), 2)
+        return big[::2].reshape(a.shape)
+    if rep == "ro":
+        b = np.array(a, copy=True)
+        b.setflags(write=False)
+        return b
+    if rep in ("i8", "i4"):
+        return a.astype(np.int64 if rep == "i8" else np.int32)
+    if rep == "f4":
+        return a.astype(np.float32)
+    if rep == "series":
+        import pandas as pd
+        return pd.Series(np.array(a, copy=True).ravel(), index=np.arange(a.size)[::-1] * 2 + 3)
+    if rep == "list":
+        return a.tolist()
+    raise ValueError(rep)
